@@ -146,8 +146,8 @@ func init() {
 			return fs
 		},
 		Gen: func(t *T) {
-			enumStrings(pathToks, t.Scale(6, 8), func(s []byte) { t.Do(In{H(s)}, bytes.ContainsAny(s, "/.%")) })
-			for i := 0; i < t.Scale(40000, 600000); i++ {
+			enumStrings(pathToks, t.Scale(6, 7), func(s []byte) { t.Do(In{H(s)}, bytes.ContainsAny(s, "/.%")) })
+			for i := 0; i < t.Scale(40000, 400000); i++ {
 				s := randFrom(t.R, pathToksRand, t.R.Intn(14))
 				t.Do(In{H(s)}, bytes.ContainsAny(s, "/.%"))
 			}
